@@ -21,6 +21,18 @@ def N(k, parent, name, optype=""):
     return {"k": k, "parent": parent, "name": name, "alias": "", "cond": "", "args": [], "dirs": [], "vdefs": [], "optype": optype, "ptype": ""}
 
 
+class StrIs:
+    """an object that is not a string but whose str() is the given text (e.g. the name of an enum value)"""
+    def __init__(self, text):
+        self.text = text
+
+    def __str__(self):
+        return self.text
+
+    def __repr__(self):
+        return "StrIs(%r)" % self.text
+
+
 class Fixed:
     """adversary returning one chosen value at one path, well-typed values elsewhere"""
     def __init__(self, world, target, val):
@@ -71,6 +83,10 @@ def cells_job(j):
     vals += [("[[],None]", [[], None]), ("[None,[obj]]", [None, [{"_typename": "T", "_id": "x", "d": "dv"}]]), ("[5,[obj]]", [5, [{"_typename": "T", "_id": "x", "d": "dv"}]]),
              ("[[None],[obj]]", [[None], [{"_typename": "T", "_id": "x", "d": "dv"}]])]
     vals += [("X", "X"), ("[X,Y]", ["X", "Y"]), ("[X,Z]", ["X", "Z"]), ("Y", "Y"), ("{}", {}), ("[[...]]", [[{}], [None]]), ("[None]", [None, None])]
+    # impostors: not strings / numbers themselves, but printing like a legal value
+    for text in ("X", "Y", "5", "true", "1.5", ""):
+        vals.append(("str()=%s" % text, StrIs(text)))
+        vals.append(("[str()=%s]" % text, [StrIs(text), StrIs(text)]))
     records, meta, tid = [], {}, 0
     for name, nodes, target in docs:
         doc = render.DocText(nodes)
